@@ -250,7 +250,7 @@ func passStr(b bool) string {
 // Decide runs the reference against the observation: returns the result that is continued and the divergence (nil if
 // the observation is one of the allowed outcomes).
 func Decide(ref *Ref, p *Program, rec *Record, out *Outcome) (*Result, *Divergence) {
-	results := ref.RunAll(p, rec.Fields, rec.Unescaped, rec.RawLength, &Observed{Counters: out.Deltas, Final: out.Fields})
+	results := ref.RunAll(p, rec.Fields, rec.Unescaped, rec.RawLength, &Observed{Counters: out.Deltas})
 	var first *Divergence
 	for _, res := range results {
 		d := diff(ref.Schema, res, out)
@@ -263,6 +263,9 @@ func Decide(ref *Ref, p *Program, rec *Record, out *Outcome) (*Result, *Divergen
 		}
 	}
 	ref.Adopt(results[0])
+	if ref.Truncated && first.Kind != "panic" {
+		return results[0], &Divergence{Kind: "inconclusive", What: "more open points than are enumerated"}
+	}
 	return results[0], first
 }
 
